@@ -10,7 +10,7 @@ Each directory holds a change to elastic/rally written by a fresh sub-agent that
 (nothing from /verif): `patch.diff`, the agent's demonstration `demo_test.py` (fails with the change, passes without) and `meta.json`.
 Every change was confirmed by `tools/seed_verify.py`: the demonstration fails on a patched copy of /repo and passes on a clean one, the repository's
 test suite shows no failure outside the baseline's always-fail/flaky set, then the registered quick check of the property ran with `--repo <patched copy>`.
-None of these patches is applied to /repo. `<ID>` = round 1, `<ID>-r2` = round 2, `<ID>-r3` … `<ID>-r7` = rounds 3 to 7 (the agent was told what the earlier rounds had tried and asked for a different clause,
+None of these patches is applied to /repo. `<ID>` = round 1, `<ID>-r2` = round 2, `<ID>-r3` … `<ID>-r8` = rounds 3 to 8 (the agent was told what the earlier rounds had tried and asked for a different clause,
 code site and trigger).
 
 | seed | change | needs to manifest | quick tier now | signatures | history |
